@@ -1,4 +1,5 @@
-import EupsModel.Lemmas.Remove
+import EupsModel.Lemmas.RemoveClosure
+import EupsModel.Lemmas.DepsTotal
 /-! C14 — remove deletes exactly what was asked and never something still needed.
 Property theorems only (model: `Model/Remove.lean`, lemmas: `Lemmas/Remove.lean`). -/
 namespace EupsModel.C14
@@ -11,17 +12,9 @@ use, an unknown product, a failed listing — the state is the one before the co
 destruction. -/
 theorem C14_refuses (h : (removeWith s uses name ver recursive check force dn).1 ≠ .ok) :
     (removeWith s uses name ver recursive check force dn).2.1 = s := by
-  unfold removeWith at h ⊢
-  cases check with
-  | false =>
-    simp only [Bool.false_eq_true, if_false] at h ⊢
-    split <;> simp_all
-  | true =>
-    simp only [if_true] at h ⊢
-    split
-    · rfl
-    · rfl
-    · split <;> simp_all
+  rcases removeWith_failed_or_ok s uses name ver recursive check force dn with ⟨e, he⟩ | ⟨s', R, hok⟩
+  · rw [he]
+  · rw [hok] at h; exact absurd rfl h
 
 /-- **Exactly what was collected.**  After a successful `remove` the declarations, tags and directories are
 those of before minus the ones of the removed products `R`: every declaration, tag and directory outside
@@ -31,108 +24,162 @@ theorem C14_exact (s' : State) (R : List Prod)
     s'.decls = s.decls.filter (fun d => !removed R d.name d.ver) ∧
     s'.tags = s.tags.filter (fun t => !removed R t.1 t.2.2) ∧
     s'.dirs = s.dirs.filter (fun d => !removed R d.1 d.2) := by
-  have key : ∀ sb, (match collect s.db sb force dn (name, ver) s.removeFuel name (some ver) recursive with
-      | .error e => (.failed e, s, [])
-      | .ok l => (Remove.Outcome.ok, destroy s (uniqProds l), uniqProds l)) = (Remove.Outcome.ok, s', R) →
-      s' = destroy s R := by
-    intro sb hk
-    split at hk
-    · simp at hk
-    · simp only [Prod.mk.injEq] at hk; obtain ⟨_, h2, h3⟩ := hk; subst h3; exact h2.symm
-  have : s' = destroy s R := by
-    unfold removeWith at h
-    cases check with
-    | false => simp only [Bool.false_eq_true, if_false] at h; exact key _ h
-    | true =>
-      simp only [if_true] at h
-      split at h
-      · simp at h
-      · simp at h
-      · exact key _ h
-  subst this
+  obtain ⟨sb, l, sn, _, h2, h3, _, _⟩ := removeWith_ok h
+  subst h2 h3
   exact ⟨rfl, rfl, rfl⟩
 
 /-- Without `--recursive` the removed set is the requested product alone (or nothing, for the default product). -/
 theorem C14_exact_nonrecursive (s' : State) (R : List Prod)
     (h : removeWith s uses name ver false check force dn = (.ok, s', R)) :
     R = [⟨name, some ver, true⟩] ∨ (R = [] ∧ dn = some name) := by
-  have key : ∀ sb, (match collect s.db sb force dn (name, ver) s.removeFuel name (some ver) false with
-      | .error e => (.failed e, s, [])
-      | .ok l => (Remove.Outcome.ok, destroy s (uniqProds l), uniqProds l)) = (Remove.Outcome.ok, s', R) →
-      R = [⟨name, some ver, true⟩] ∨ (R = [] ∧ dn = some name) := by
-    intro sb hk
-    split at hk
-    · simp at hk
-    · rename_i l hl
-      simp only [Prod.mk.injEq] at hk; obtain ⟨_, _, h3⟩ := hk; subst h3
-      rcases collect_nonrecursive _ _ _ _ _ _ _ _ _ hl with ⟨rfl, hd⟩ | ⟨p, hp, rfl⟩
-      · right; exact ⟨by simp [uniqProds, Topo.dedup], hd⟩
-      · left
-        have : p = ⟨name, some ver, true⟩ := by
-          simp only [Db.find] at hp
-          split at hp <;> simp_all
-        subst this; simp [uniqProds, Topo.dedup]
-  unfold removeWith at h
-  cases check with
-  | false => simp only [Bool.false_eq_true, if_false] at h; exact key _ h
-  | true =>
-    simp only [if_true] at h
-    split at h
-    · simp at h
-    · simp at h
-    · exact key _ h
+  obtain ⟨sb, l, sn, hl, _, h3, _, _⟩ := removeWith_ok h
+  subst h3
+  rcases collect_nonrecursive _ _ _ _ _ _ _ _ _ _ _ hl with ⟨rfl, hd⟩ | ⟨p, hp, rfl⟩
+  · right; exact ⟨by simp [uniqProds, Topo.dedup], hd⟩
+  · left
+    have : p = ⟨name, some ver, true⟩ := by
+      simp only [Db.find] at hp
+      split at hp <;> simp_all
+    subst this; simp [uniqProds, Topo.dedup]
+
+/-- **With `--recursive` the removed set is the dependency closure `remove` walks**: the products *opened* from
+the requested one (itself, and every declared direct dependency — `-j` or not — of an opened product that bears
+another name) together with all their direct dependencies; nothing else.  (`Opened`, `Collected`:
+`Lemmas/RemoveClosure.lean`.  Stacks without unsetup lines, no default product.) -/
+theorem C14_exact_recursive (hns : NoUnsetup s.db) (s' : State) (R : List Prod)
+    (h : removeWith s uses name ver true check force none = (.ok, s', R)) (q : Prod) :
+    q ∈ R ↔ Collected s.db ⟨name, some ver, true⟩ q := by
+  obtain ⟨sb, l, sn, hl, _, h3, _, _⟩ := removeWith_ok h
+  subst h3
+  obtain ⟨p, hp, hiff⟩ := collect_is_closure s.db hns sb force (name, ver) _ name (some ver) l sn hl
+  have : p = ⟨name, some ver, true⟩ := by
+    simp only [Db.find] at hp
+    split at hp <;> simp_all
+  subst this
+  rw [mem_uniqProds]; exact hiff q
+
+/-- On success the requested product itself is among the removed ones (unless it is the default product). -/
+theorem C14_requested_is_removed (s' : State) (R : List Prod)
+    (h : removeWith s uses name ver recursive check force dn = (Remove.Outcome.ok, s', R))
+    (hd : dn ≠ some name) : ⟨name, some ver, true⟩ ∈ R := by
+  obtain ⟨sb, l, sn, hl, _, h3, _, _⟩ := removeWith_ok h
+  subst h3
+  obtain ⟨p, hp, hpl⟩ := collect_contains_self _ _ _ _ _ _ _ _ _ _ _ _ hl hd
+  have : p = ⟨name, some ver, true⟩ := by
+    simp only [Db.find] at hp
+    split at hp <;> simp_all
+  subst this
+  exact (mem_uniqProds l _).mpr hpl
 
 /-- **Never something still needed.**  With the in-use check on and force off, a successful `remove` deletes
 only products whose every user (as `uses` reports them) is the requested product itself — which is removed too. -/
 theorem C14_never_still_needed (sb : SetupBy) (s' : State) (R : List Prod)
     (h : removeWith s (.ok sb) name ver recursive true false dn = (.ok, s', R)) :
     ∀ p ∈ R, ∀ u ∈ users sb p.name p.ver, u.name = name ∧ u.ver = ver := by
-  unfold removeWith at h
-  simp only [if_true] at h
-  split at h
-  · simp at h
-  · rename_i l hl
-    simp only [Prod.mk.injEq] at h; obtain ⟨_, _, h3⟩ := h; subst h3
-    intro p hp u hu
-    have hp' := (mem_uniqProds l p).mp hp
-    have := collect_checked _ _ _ _ _ _ _ _ _ hl p hp'
-    simp only [inUse, usedBy, Bool.not_eq_false', List.isEmpty_iff, List.filter_eq_nil_iff] at this
-    have := this u hu
-    simpa using this
+  obtain ⟨sb0, l, sn, hl, _, h3, _, hsb⟩ := removeWith_ok h
+  obtain ⟨sb', hu, rfl⟩ := hsb rfl
+  have : sb = sb' := by injection hu
+  subst this h3
+  intro p hp u hu
+  have hp' := (mem_uniqProds l p).mp hp
+  have := collect_checked _ _ _ _ _ _ _ _ _ _ _ hl p hp'
+  simp only [inUse, usedBy, Bool.not_eq_false', List.isEmpty_iff, List.filter_eq_nil_iff] at this
+  have := this u hu
+  simpa using this
+
+/-- **Never something still needed, in terms of the listings.**  With the in-use check on and force off, after a
+successful `remove` the only declared product whose dependency listing holds a removed product is the
+requested product itself (which is removed too): no product that remains declared needs a removed one. -/
+theorem C14_never_still_needed_listing (s' : State) (R : List Prod)
+    (h : remove s name ver recursive true false dn = (Remove.Outcome.ok, s', R))
+    (p : Prod) (hp : p ∈ R) (d : Decl) (hd : d ∈ s.decls) (l : List Entry)
+    (hl : getDependentProducts s.db s.db.fuel ⟨d.name, some d.ver, true⟩ true false = .ok l)
+    (e : Entry) (he : e ∈ l) (hn : e.prod.name = p.name) (hv : e.prod.ver = p.ver) :
+    d.name = name ∧ d.ver = ver := by
+  unfold remove at h
+  cases hu : usesInfo s.db s.db.fuel with
+  | outOfFuel => simp [removeWith, hu] at h
+  | cycle => simp [removeWith, hu] at h
+  | ok sb =>
+    rw [hu] at h
+    have hex : ∃ u ∈ users sb p.name p.ver, u.name = d.name ∧ u.ver = d.ver ∧ u.need = p.ver :=
+      (uses_inverse s.db s.db.fuel sb hu p.name p.ver d.name d.ver p.ver).mpr
+        ⟨Or.inr rfl, d, hd, rfl, rfl, l, hl, e, he, hn, hv⟩
+    obtain ⟨u, hu', h1, h2, _⟩ := hex
+    have := C14_never_still_needed s name ver recursive dn sb s' R h p hp u hu'
+    rw [← h1, ← h2]; exact this
 
 /-- `--noCheck`: the command never refuses. -/
 theorem C14_noCheck : (removeWith s uses name ver recursive false force dn).1 ≠ .failed .refused := by
-  unfold removeWith
-  simp only [Bool.false_eq_true, if_false]
-  split
-  · rename_i e he
-    intro h; simp only at h; injection h with h; subst h
-    exact collect_not_refused _ none force dn _ (Or.inl rfl) _ _ _ _ he
-  · simp
+  intro h
+  obtain ⟨sb, hc, hsb⟩ := removeWith_refused h
+  rw [hsb rfl] at hc
+  exact collect_not_refused _ none force dn _ (Or.inl rfl) _ _ _ _ _ hc
 
 /-- `--force`: the command never refuses. -/
 theorem C14_force : (removeWith s uses name ver recursive check true dn).1 ≠ .failed .refused := by
-  have key : ∀ sb, (match collect s.db sb true dn (name, ver) s.removeFuel name (some ver) recursive with
-      | .error e => (Remove.Outcome.failed e, s, ([] : List Prod))
-      | .ok l => (Remove.Outcome.ok, destroy s (uniqProds l), uniqProds l)).1 ≠ .failed .refused := by
-    intro sb
-    split
-    · rename_i e he
-      intro h; simp only at h; injection h with h; subst h
-      exact collect_not_refused _ sb true dn _ (Or.inr rfl) _ _ _ _ he
-    · simp
-  unfold removeWith
-  cases check with
-  | false => simp only [Bool.false_eq_true, if_false]; exact key _
-  | true =>
-    simp only [if_true]
-    split
-    · simp
-    · simp
-    · exact key _
+  intro h
+  obtain ⟨sb, hc, _⟩ := removeWith_refused h
+  exact collect_not_refused _ sb true dn _ (Or.inr rfl) _ _ _ _ _ hc
+
+/-- **`remove` ends** (tree with the D33 repair): on a stack whose tables have no unsetup lines, dependency
+cycles included, the command never dies in the recursion (`RecursionError`) and the in-use index is always
+built — the only ways not to remove are the refusal and an unknown product. -/
+theorem C14_terminates (hns : NoUnsetup s.db) (e : Err)
+    (h : (remove s name ver recursive check force dn).1 = .failed e) : e = .refused ∨ e = .notFound := by
+  unfold remove at h
+  obtain ⟨sb, hsb⟩ := usesInfo_total s.db hns
+  rw [hsb] at h
+  rcases removeWith_failed h with ⟨_, ⟨hu, _⟩ | ⟨hu, _⟩⟩ | ⟨sb', hc⟩
+  · cases hu
+  · cases hu
+  · have := (collect_fuel s.db hns sb' force dn (name, ver) s.removeFuel name (some ver) recursive []
+      (removeFuel_enough s)).1
+    cases e with
+    | refused => exact Or.inl rfl
+    | notFound => exact Or.inr rfl
+    | cycle =>
+      exfalso
+      -- `collect` never yields `cycle`
+      have hcyc : ∀ f n v r sn, collect s.db sb' force dn (name, ver) f n v r sn ≠ .error .cycle := by
+        intro f
+        induction f with
+        | zero => intro n v r sn; simp [collect]
+        | succ k ih =>
+          intro n v r sn
+          unfold collect
+          split
+          · simp
+          · split
+            · simp
+            · simp only
+              split
+              · simp
+              · have loop : ∀ qs acc sn', collectLoop sb' force (name, ver) r
+                    (fun q sn => collect s.db sb' force dn (name, ver) k q.name q.ver (q.name != n) sn) qs acc sn'
+                    ≠ .error .cycle := by
+                  intro qs
+                  induction qs with
+                  | nil => intro acc sn'; simp [collectLoop]
+                  | cons q qs ihq =>
+                    intro acc sn'
+                    rw [collectLoop_cons]
+                    split
+                    · simp
+                    · split
+                      · cases hq : collect s.db sb' force dn (name, ver) k q.name q.ver (q.name != n) sn' with
+                        | error e' =>
+                          simp only
+                          intro hh; injection hh with hh; subst hh; exact ih _ _ _ _ hq
+                        | ok r' => obtain ⟨sub, sn2⟩ := r'; exact ihq _ _
+                      · exact ihq _ _
+                exact loop _ _ _
+      exact hcyc _ _ _ _ _ hc
+    | outOfFuel => exact absurd hc this
 
 /-! Non-vacuity: `app 1 → lib 1 ← other 1`.  Removing `app` recursively is refused (lib is in use by `other`),
-succeeds with `--noCheck` taking `lib` along, and a plain removal of `app` leaves everything else alone. -/
+succeeds with `--noCheck` taking `lib` along, and a plain removal of `app` leaves everything else alone.
+`cyc`: `x 1 ↔ y 1`, a dependency cycle: the recursive removal ends and takes both (D33 repaired). -/
 section Example
 def a : Str := [97]
 def l : Str := [108]
@@ -147,6 +194,16 @@ example : (remove ex a v1 true true false none).1 = .failed .refused := by decid
 example : (remove ex a v1 true true false none).2.1 = ex := by decide
 example : (remove ex a v1 true false false none).2.2 = [⟨a, some v1, true⟩, ⟨l, some v1, true⟩] := by decide
 example : (remove ex a v1 false true false none).2.1.decls.map (·.name) = [l, o] := by decide
+
+def x : Str := [120]
+def y : Str := [121]
+def cyc : State :=
+  { decls := [⟨x, v1, [⟨false, false, y, none, false⟩]⟩, ⟨y, v1, [⟨false, false, x, none, false⟩]⟩]
+    tags := [(x, currentTag, v1), (y, currentTag, v1)]
+    dirs := [(x, v1), (y, v1)] }
+example : (remove cyc x v1 true false false none).2.2 = [⟨x, some v1, true⟩, ⟨y, some v1, true⟩] := by decide
+example : (remove cyc x v1 true false false none).2.1 = ⟨[], [], []⟩ := by decide
+example : (remove cyc x v1 true true false none).1 = .failed .refused := by decide
 end Example
 
 end EupsModel.C14
